@@ -14,7 +14,7 @@
 (* before and after it: checked with --length=1 this is a proof for all     *)
 (* states, not a bounded exploration.                                       *)
 (***************************************************************************)
-EXTENDS Integers
+EXTENDS PoolOps
 
 VARIABLES
     \* @type: Int;
@@ -29,17 +29,6 @@ VARIABLES
     x,
     \* @type: Int;
     y
-
-Burned(a) == (a + 999) \div 1000
-Ceil999(a) == (a + 998) \div 999
-BuyForSell(rIn, rOut, in) ==
-   LET kAdj == (rIn * rOut) * 1000000
-       balAdj == ((in + rIn) * 1000) - (in * 2)
-   IN (rOut - (kAdj \div (balAdj * 1000))) - 1
-SellForBuy(rIn, rOut, out) ==
-   LET kAdj == (rIn * rOut) * 1000000
-       balAdj == (rOut - out) * 1000
-   IN (((kAdj \div balAdj) - (rIn * 1000)) \div 998) + 1
 
 IndInit == /\ r0 \in Nat /\ r1 \in Nat /\ sup \in Nat /\ r0 > 0 /\ r1 > 0 /\ sup > 0
            /\ op = "init" /\ x = 0 /\ y = 0
